@@ -826,4 +826,252 @@ def decodeU (P : Prim) : List (Str × Bool) → List Enc → List PyVal
   | _, _ => []
 end
 
+
+/-! ### column.py: per-column `convert` wrappers and `set` normalisations  (C23, C07) -/
+
+/-- ReferenceListColumn.convert, before `super().convert(val)`:
+      if val:
+        if isinstance(val, int): val = [val]
+        elif self._target_table and isinstance(val, self._target_table.Record): val = [val.id]
+    (`val.id` of a Record of an existing row is its row id; ReferenceLookup values are not modelled) -/
+def refListColPre (P : Prim) (tid : Str) (v : PyVal) : PyVal :=
+  match truthy v with
+  | some true =>
+    (match v with
+     | .bool _ => .list (P.listMeta [v]) [v]
+     | .int _ _ => .list (P.listMeta [v]) [v]
+     | .record t r => if t = tid then .list (P.listMeta [.int r false]) [.int r false] else v
+     | _ => v)
+  | _ => v
+
+/-- `column.convert(value)`: ReferenceColumn / ReferenceListColumn adapt the value first, every
+    other column class calls `type_obj.convert` directly. -/
+def colConvert (P : Prim) (τ : ColType) (v : PyVal) : PyVal :=
+  match τ with
+  -- ReferenceColumn.convert:  elif isinstance(val, list): val = val[0] if val else 0
+  | .ref =>
+    (match v with
+     | .list _ (x :: _) => convert P .ref x
+     | .list _ [] => convert P .ref (.int 0 false)
+     | .recordList (r :: _) _ _ => convert P .ref (.int r false)
+     | .recordList [] _ _ => convert P .ref (.int 0 false)
+     | _ => convert P .ref v)
+  | .refList t => convert P (.refList t) (refListColPre P t v)
+  | .attachments => convert P .attachments (refListColPre P attachmentsTable v)
+  | _ => convert P τ v
+
+/-- Python `value == k` for a small int `k` (BoolColumn.set compares with 1 and 0) -/
+def pyEqInt (v : PyVal) (k : Int) : Bool :=
+  match v with
+  | .bool b => (if b then 1 else 0) == k
+  | .int n _ => n == k
+  | .float (.int n) _ => n == k
+  | .float .negZero _ => k == 0
+  | _ => false
+
+/-- `column.set(row, value)`: what ends up in the cell.  The only raising case is
+    NumericColumn.set's `float(value)` on an int beyond the float range (OverflowError). -/
+def colSet (P : Prim) (τ : ColType) (v : PyVal) : Except Str PyVal :=
+  match τ with
+  -- BoolColumn.set: True if value == 1 else (False if value == 0 else value)
+  | .bool => if pyEqInt v 1 then .ok (.bool true) else if pyEqInt v 0 then .ok (.bool false) else .ok v
+  -- NumericColumn.set (also Date, DateTime, PositionNumber, ManualSortPos columns):
+  --   float(value) if type(value) == int else value
+  | .numeric | .date | .dateTime | .positionNumber | .manualSortPos =>
+    (match v with
+     | .int n false => (match floatOfInt P n with | .ok f => .ok (.float f false) | .error e => .error e)
+     | _ => .ok v)
+  -- ChoiceListColumn.set: a str starting with '[' -> tuple(json.loads(value)) (on failure: as is);
+  --   a list -> tuple(value)
+  | .choiceList =>
+    (match v with
+     | .str s _ =>
+       if startsBracket s then
+         (match P.jsonLoads s with
+          | some parsed => (match pyIter parsed with
+            | .ok items => .ok (.tuple (P.tupleMeta items) items)
+            | .error _ => .ok v)
+          | none => .ok v)
+       else .ok v
+     | .list _ xs => .ok (.tuple (P.tupleMeta xs) xs)
+     | .recordList rows _ _ => .ok (.tuple (P.tupleMeta (rows.map (fun r => .int r false))) (rows.map (fun r => .int r false)))
+     | _ => .ok v)
+  -- ReferenceColumn._clean_up_value: a float that is a positive small integer becomes that int
+  | .ref =>
+    (match v with
+     | .float (.int n) false => if decide (n > 0) && isShort n then .ok (.int n false) else .ok v
+     | _ => .ok v)
+  -- ReferenceListColumn._clean_up_value: the same string forms do_convert understands
+  | .refList _ | .attachments => .ok (refListPre P v)
+  | _ => .ok v
+
+/-! ### Python `==`, objtypes.strict_equal, objtypes.equal_encoding -/
+
+/-- numeric value of bool/int/float for `==`: `inl n` an integer value, `inr bits` a non-integral
+    finite float; none = not a number, or NaN (equal to nothing), or ±inf handled separately -/
+inductive NumK where
+  | int (n : Int) | frac (bits : Nat) | inf (neg : Bool)
+deriving DecidableEq
+
+def numKey : PyVal → Option NumK
+  | .bool b => some (.int (if b then 1 else 0))
+  | .int n _ => some (.int n)
+  | .float (.int n) _ => some (.int n)
+  | .float .negZero _ => some (.int 0)
+  | .float (.frac b _) _ => some (.frac b)
+  | .float (.inf s) _ => some (.inf s)
+  | _ => Option.none
+
+mutual
+/-- Python `a == b` for two DISTINCT objects of the classes cells can hold (objects compared by
+    identity -- errors, stubs, foreign objects -- are therefore unequal; dict/set not needed) -/
+def pyEq : PyVal → PyVal → Bool
+  | .none, b => (match b with | .none => true | _ => false)
+  | .bool x, b => (match numKey b with | some k => decide (k = .int (if x then 1 else 0)) | none => false)
+  | .int n _, b => (match numKey b with | some k => decide (k = .int n) | none => false)
+  | .float f s, b => (match numKey (.float f s), numKey b with | some k, some k' => decide (k = k') | _, _ => false)
+  | .str s _, b => (match b with | .str s' _ => decide (s = s') | _ => false)
+  | .bytes _ i _ _, b => (match b with | .bytes _ i' _ _ => decide (i = i') | _ => false)
+  | .list _ xs, b => (match b with
+      | .list _ ys => pyEqL xs ys
+      | .recordList rows _ _ => pyEqL xs (rows.map (fun r => .int r false))
+      | _ => false)
+  | .tuple _ xs, b => (match b with | .tuple _ ys => pyEqL xs ys | _ => false)
+  | .recordList rows _ _, b => (match b with
+      | .recordList rows' _ _ => decide (rows = rows')
+      | _ => false)
+  | .date _ d _, b => (match b with | .date _ d' _ => decide (d = d') | _ => false)
+  | .record t r, b => (match b with | .record t' r' => decide (t = t') && decide (r = r') | _ => false)
+  | .altText s, b => (match b with | .altText s' => decide (s = s') | _ => false)
+  | _, _ => false
+def pyEqL : List PyVal → List PyVal → Bool
+  | [], ys => (match ys with | [] => true | _ => false)
+  | x :: xs, ys => (match ys with | y :: ys' => pyEq x y && pyEqL xs ys' | [] => false)
+end
+
+/-- `type(a) == type(b)` -/
+def sameClass : PyVal → PyVal → Bool
+  | .none, .none => true
+  | .bool _, .bool _ => true
+  | .int _ s, .int _ s' => !s && !s'
+  | .float _ s, .float _ s' => !s && !s'
+  | .str _ s, .str _ s' => !s && !s'
+  | .bytes .., .bytes .. => true
+  | .list .., .list .. => true
+  | .tuple .., .tuple .. => true
+  | .recordList .., .recordList .. => true
+  | .date .., .date .. => true
+  | .record t _, .record t' _ => decide (t = t')
+  | .altText _, .altText _ => true
+  | _, _ => false
+
+/-- objtypes.strict_equal for two distinct objects: `type(a) == type(b) and a == b` -/
+def strictEq (a b : PyVal) : Bool := sameClass a b && pyEq a b
+
+mutual
+/-- the same comparison without Python's numeric coercions (True == 1, 0.0 == 0, -0.0 == 0.0):
+    bools only equal bools, ints only ints, floats bit for bit -/
+def exactEq : PyVal → PyVal → Bool
+  | .none, b => (match b with | .none => true | _ => false)
+  | .bool x, b => (match b with | .bool y => decide (x = y) | _ => false)
+  | .int n _, b => (match b with | .int m _ => decide (n = m) | _ => false)
+  | .float f _, b => (match b with | .float g _ => decide (f = g) | _ => false)
+  | .str s _, b => (match b with | .str s' _ => decide (s = s') | _ => false)
+  | .list _ xs, b => (match b with | .list _ ys => exactEqL xs ys | _ => false)
+  | .tuple _ xs, b => (match b with | .tuple _ ys => exactEqL xs ys | _ => false)
+  | .recordList rows _ _, b => (match b with | .recordList rows' _ _ => decide (rows = rows') | _ => false)
+  | _, _ => false
+def exactEqL : List PyVal → List PyVal → Bool
+  | [], ys => (match ys with | [] => true | _ => false)
+  | x :: xs, ys => (match ys with | y :: ys' => exactEq x y && exactEqL xs ys' | [] => false)
+end
+
+/-- numeric value of a marshalled scalar for `==` -/
+def encNumKey : Enc → Option NumK
+  | .bool b => some (.int (if b then 1 else 0))
+  | .int n => some (.int n)
+  | .float (.int n) => some (.int n)
+  | .float .negZero => some (.int 0)
+  | .float (.frac b _) => some (.frac b)
+  | .float (.inf s) => some (.inf s)
+  | _ => Option.none
+
+mutual
+/-- Python `==` on two marshalled structures that are distinct objects (a NaN is unequal to any
+    NaN; 1 == 1.0 == True; list != tuple; dicts compare as sets of items) -/
+def encEq : Enc → Enc → Bool
+  | .none, b => (match b with | .none => true | _ => false)
+  | .bool x, b => (match encNumKey b with | some k => decide (k = .int (if x then 1 else 0)) | none => false)
+  | .int n, b => (match encNumKey b with | some k => decide (k = .int n) | none => false)
+  | .float f, b => (match encNumKey (.float f), encNumKey b with | some k, some k' => decide (k = k') | _, _ => false)
+  | .str s, b => (match b with | .str s' => decide (s = s') | _ => false)
+  | .list xs, b => (match b with | .list ys => encEqL xs ys | _ => false)
+  | .tuple xs, b => (match b with | .tuple ys => encEqL xs ys | _ => false)
+  | .dict ks vs, b => (match b with
+      | .dict ks' vs' => decide (ks.length = ks'.length) && encEqD ks vs ks' vs'
+      | _ => false)
+def encEqL : List Enc → List Enc → Bool
+  | [], ys => (match ys with | [] => true | _ => false)
+  | x :: xs, ys => (match ys with | y :: ys' => encEq x y && encEqL xs ys' | [] => false)
+/-- every item (k, v) of the first dict has an equal item under the same key in the second -/
+def encEqD : List (Str × Bool) → List Enc → List (Str × Bool) → List Enc → Bool
+  | k :: ks, v :: vs, ks', vs' => encEqAt k.1 v ks' vs' && encEqD ks vs ks' vs'
+  | _, _, _, _ => true
+def encEqAt (key : Str) : Enc → List (Str × Bool) → List Enc → Bool
+  | v, k' :: ks', v' :: vs' => if k'.1 = key then encEq v v' else encEqAt key v ks' vs'
+  | _, _, _ => false
+end
+
+def PyVal.isFloat : PyVal → Bool
+  | .float .. => true
+  | _ => false
+def PyVal.isBool : PyVal → Bool
+  | .bool _ => true
+  | _ => false
+
+/-- objtypes.equal_encoding(a, b) for two distinct objects -/
+def equalEncoding (P : Prim) (a b : PyVal) : Bool :=
+  match a, b with
+  -- if isinstance(a, float) and isinstance(b, float): return a == b or (isnan(a) and isnan(b))
+  | .float f _, .float g _ =>
+    (match f, g with
+     | .nan _, .nan _ => true
+     | _, _ => (match numKey a, numKey b with | some k, some k' => decide (k = k') | _, _ => false))
+  | _, _ =>
+    -- if isinstance(a, bool) or isinstance(b, bool): return type(a) == type(b) and a == b
+    if a.isBool || b.isBool then
+      (match a, b with | .bool x, .bool y => decide (x = y) | _, _ => false)
+    -- return encode_object(a) == encode_object(b)
+    else encEq (encode P a) (encode P b)
+
+/-! ### useractions.doModifyColumn, one cell  (C23) -/
+
+/-- The cell after a type change to `τ'`:
+      docactions.ModifyColumn:   new_column.set(row_id, old_column.raw_get(row_id))
+      useractions.doModifyColumn:
+        new_value = new_column.convert(orig_value)
+        if not strict_equal(orig_value, new_value): new_column.set(row_id, new_value)
+    error = the exception that aborts the whole action -/
+def modifyCell (P : Prim) (τ' : ColType) (old : PyVal) : Except Str PyVal :=
+  match colSet P τ' old with
+  | .error e => .error e
+  | .ok raw =>
+    if strictEq old (colConvert P τ' old) then .ok raw
+    else colSet P τ' (colConvert P τ' old)
+
+/-! ### main._decode_db_value after marshalling  (C07)
+    The property's procedure stores a scalar encoding as itself and a compound encoding (a list)
+    as a marshalled blob; `_decode_db_value` unmarshals blobs and applies `decode_object`, and
+    returns everything else as is.  `decode_object` is the identity on scalars, so both cases are
+    `decode`. -/
+def dbDecode (P : Prim) (e : Enc) : PyVal :=
+  match e with
+  | .list xs => decode P (.list xs)      -- bytes blob: objtypes.decode_object(marshal.loads(value))
+  | .tuple xs => decode P (.tuple xs)
+  | e => ofEnc P e                       -- any other type: the value itself
+
+/-- the cell found after reloading a cell `s` of a column of type `τ`: load_table -> column.set -/
+def reloadCell (P : Prim) (τ : ColType) (s : PyVal) : Except Str PyVal :=
+  colSet P τ (dbDecode P (encode P s))
+
 end Grist.PyVal
